@@ -63,6 +63,9 @@ def gen_program(rnd, prof):
             t['flag'] = 0
         if rnd.random() < prof['p_split'] and len(deps) >= 2:
             t['split'] = True
+        if any(x.startswith('sub/') for x in deps) and rnd.random() < prof.get('p_alias', 0.35):
+            # asks for its dependencies in sub/ through a symbolic link to that directory (lnk -> sub): same targets, other spelling
+            t['alias'] = True
         if rnd.random() < prof['p_watch']:
             w = 'w%d' % len(p.watch)
             p.watch[w] = None if rnd.random() < 0.7 else 0
@@ -171,6 +174,31 @@ def gen_op(rnd, p, prof, last_build=None):
             return None
         n = rnd.choice(c)
         return ('flag', n, 1 - p.targets[n]['flag'])
+    if op == 'hflag':
+        c = [n for n in tnames if n not in _opt_closure(p)]
+        if not c:
+            return None
+        n = rnd.choice(c)
+        return ('hflag', n, 0 if p.targets[n].get('hfail') else 1)
+    if op == 'm_hfail':
+        # a target that fails for an undeclared reason when it is force-rebuilt, although it was clean: the failure is remembered,
+        # dependents requested later in the same run (also through intermediates) fail, the next run retries, the repair propagates
+        c = [n for n in tnames if not p.targets[n].get('hfail') and p.dependents(n) and n not in _opt_closure(p)]
+        if not c:
+            return None
+        n = rnd.choice(c)
+        ups = sorted(p.dependents(n))
+        top = rnd.choice(ups)
+        chk = rnd.choice(ups)
+        keep = rnd.random() < 0.6
+        bt = ('build', [top], dict(j=1, keep=False, forced=False))
+        line = [chk, n, top] if chk != top else [n, top]
+        variants = [
+            [bt, ('hflag', n, 1), ('build', line, dict(j=1, keep=keep, forced=True)), bt, ('hflag', n, 0), bt, bt],
+            [bt, ('hflag', n, 1), ('build', [n], dict(j=1, keep=False, forced=True)), bt, bt, ('hflag', n, 0), bt, bt],
+            [bt, ('hflag', n, 1), ('build', [n, top], dict(j=1, keep=True, forced=True)), ('hflag', n, 0), ('build', [chk], dict(j=1, keep=False, forced=False)), bt],
+        ]
+        return rnd.choice(variants)
     if op == 'watch':
         if not p.watch:
             return None
@@ -276,6 +304,18 @@ def gen_op(rnd, p, prof, last_build=None):
     if op == 'urm':
         return ('urm', rnd.choice(tnames))
     return None
+
+
+def _opt_closure(p):
+    """Targets whose availability a tolerant consumer (`redo-ifchange x || true`) writes into its output: an undeclared failure
+    there would make content depend on the history, which the content oracle cannot follow."""
+    acc = set()
+    for t in p.targets.values():
+        o = t.get('opt')
+        if o and o in p.targets:
+            p.closure(o, acc)
+            acc.add(o)
+    return acc
 
 
 def _src_closure(p, n, acc=None):
